@@ -9,12 +9,14 @@
 // each with configured entire supply = (sum of declared supplies) -1 / +0 / +1.
 //
 // Oracle (exactly the statement, one direction): if NewAccountsParser returns no error then
-//   (1) every entry's declared supply == balance + staked + delegated value,
-//   (2) the declared supplies add up to the configured entire supply,
-//   (3) no entry's address is a smart-contract address,
-//   (4) no two entries denote the same address: the harness knows which 32 bytes each address
-//       text of its menu denotes (lower-case / upper-case bech32 forms of the same bytes are
-//       the same address).
+//
+//	(1) every entry's declared supply == balance + staked + delegated value,
+//	(2) the declared supplies add up to the configured entire supply,
+//	(3) no entry's address is a smart-contract address,
+//	(4) no two entries denote the same address: the harness knows which 32 bytes each address
+//	    text of its menu denotes (lower-case / upper-case bech32 forms of the same bytes are
+//	    the same address).
+//
 // An accepted file with an entry whose address text denotes no address at all makes (3)/(4)
 // meaningless and is reported under its own signature. Rejections are never judged (the
 // statement is "accepted only if"); a panic of the parser is counted, not judged.
@@ -48,17 +50,17 @@ type addrForm struct {
 	Bytes []byte // nil: the text denotes no address
 }
 
-var addrs []addrForm     // entry address menu
+var addrs []addrForm      // entry address menu
 var delegAddrs []addrForm // delegation address menu: none / d1 / malformed
 
 // entry is one genesis entry as written to the file (all numbers as decimal strings).
 type entry struct {
-	A    int    `json:"a"`   // index in addrs
-	Bal  string `json:"bal"` // balance
-	Stk  string `json:"stk"` // staking value
-	DV   string `json:"dv"`  // delegation value
-	DA   int    `json:"da"`  // index in delegAddrs; -1: the "delegation" object is omitted
-	Sup  string `json:"sup"` // declared supply
+	A   int    `json:"a"`   // index in addrs
+	Bal string `json:"bal"` // balance
+	Stk string `json:"stk"` // staking value
+	DV  string `json:"dv"`  // delegation value
+	DA  int    `json:"da"`  // index in delegAddrs; -1: the "delegation" object is omitted
+	Sup string `json:"sup"` // declared supply
 }
 
 type fileCase struct {
@@ -135,7 +137,26 @@ type env struct {
 	c     *mc.Ctx
 	conv  core.PubkeyConverter
 	kg    crypto.KeyGenerator
-	files chan string
+	files chan *genFile
+}
+
+// genFile is one scratch genesis file, rewritten in place for every case. It is never
+// truncated (truncating a file costs ~5 ms on this file system): a shorter document is padded
+// with trailing spaces up to the longest one written so far, which keeps it a valid JSON file.
+type genFile struct {
+	path string
+	f    *os.File
+	max  int
+}
+
+func (g *genFile) write(text string) error {
+	b := []byte(text)
+	if len(b) < g.max {
+		b = append(b, bytes.Repeat([]byte{' '}, g.max-len(b))...)
+	}
+	g.max = len(b)
+	_, err := g.f.WriteAt(b, 0)
+	return err
 }
 
 func (ev *env) run(fc fileCase, rank int) {
@@ -146,11 +167,12 @@ func (ev *env) run(fc fileCase, rank int) {
 		parts[i] = e.jsonText()
 	}
 	text := "[" + strings.Join(parts, ",") + "]"
-	path := <-ev.files
-	defer func() { ev.files <- path }()
-	if err := os.WriteFile(path, []byte(text), 0o644); err != nil {
-		c.Fatal("cannot write %s: %v", path, err)
+	gf := <-ev.files
+	defer func() { ev.files <- gf }()
+	if err := gf.write(text); err != nil {
+		c.Fatal("cannot write %s: %v", gf.path, err)
 	}
+	path := gf.path
 	var err error
 	p := mc.Try(func() { _, err = parsing.NewAccountsParser(path, bi(fc.Total), ev.conv, ev.kg) })
 	if p != "" {
@@ -257,9 +279,16 @@ func main() {
 			c.Fatal("mkdir: %v", err)
 		}
 		defer os.RemoveAll(dir)
-		ev := &env{c: c, conv: conv, kg: kg, files: make(chan string, mc.Workers()+1)}
+		ev := &env{c: c, conv: conv, kg: kg, files: make(chan *genFile, mc.Workers()+1)}
 		for i := 0; i < mc.Workers()+1; i++ {
-			ev.files <- filepath.Join(dir, fmt.Sprintf("genesis-%d.json", i))
+			p := filepath.Join(dir, fmt.Sprintf("genesis-%d.json", i))
+			f, ferr := os.OpenFile(p, os.O_RDWR|os.O_CREATE|os.O_TRUNC, 0o644)
+			if ferr != nil {
+				os.RemoveAll(dir)
+				c.Fatal("cannot create %s: %v", p, ferr)
+			}
+			defer f.Close()
+			ev.files <- &genFile{path: p, f: f}
 		}
 
 		if len(c.ReplayData) > 0 {
@@ -272,41 +301,52 @@ func main() {
 		}
 
 		// ---- entry menus ----
+		// one: menu for 1-entry files; full: menu for both entries of 2-entry files;
+		// mid/third: menus for the first two / the last entry of 3-entry files.
 		big70 := new(big.Int).Lsh(big.NewInt(1), 70).String()
-		var full, mid, third []entry
-		delsQ := []delegForm{{"0", 0}, {"1", 1}, {"1", 0}, {"1", 2}}
+		var one, full, mid, third []entry
+		dels := []delegForm{{"0", 0}, {"1", 1}, {"1", 0}, {"1", 2}}
 		if c.Quick() {
-			full = buildEntries([]int{0, 1, 2, 3, 4, 5}, []string{"0", "1", "2"}, []string{"0", "1"}, delsQ, []int64{-1, 0, 1})
+			full = buildEntries([]int{0, 1, 2, 3, 4, 5}, []string{"1", "0", "2"}, []string{"0", "1"}, dels, []int64{0, 1})
+			one = buildEntries([]int{0, 1, 2, 3, 4, 5}, []string{"1", "0", "2"}, []string{"0", "1"}, dels, []int64{-1, 0, 1})
+			mid = buildEntries([]int{0, 1, 2, 3, 4, 5}, []string{"1", "0"}, []string{"0"}, []delegForm{{"0", 0}, {"1", 1}}, []int64{0, 1})
 		} else {
-			full = buildEntries([]int{0, 1, 2, 3, 4, 5, 6, 7, 8, 9}, []string{"0", "1", "2", big70}, []string{"0", "1", "-1"},
-				append(delsQ, delegForm{"0", 1}, delegForm{"0", -1}), []int64{-1, 0, 1})
+			all := []int{0, 1, 2, 3, 4, 5, 6, 7, 8, 9}
+			full = buildEntries(all[:9], []string{"1", "0", "2"}, []string{"0", "1"}, append(dels, delegForm{"0", -1}), []int64{-1, 0, 1})
+			one = buildEntries(all, []string{"1", "0", "2", big70}, []string{"0", "1", "-1"}, append(dels, delegForm{"0", 1}, delegForm{"0", -1}), []int64{-1, 0, 1})
+			mid = buildEntries([]int{0, 1, 2, 3, 4, 5}, []string{"1", "0"}, []string{"0", "1"}, []delegForm{{"0", 0}, {"1", 1}}, []int64{0, 1})
 		}
-		mid = buildEntries([]int{0, 1, 2, 3, 4, 5}, []string{"0", "1"}, []string{"0", "1"}, []delegForm{{"0", 0}, {"1", 1}}, []int64{0, 1})
-		third = buildEntries([]int{0, 1, 2, 3}, []string{"0", "1"}, []string{"0"}, []delegForm{{"0", 0}, {"1", 1}}, []int64{0})
-		nF, nM, nT := len(full), len(mid), len(third)
-		n1, n2, n3 := nF, nF*nF, nM*nM*nT
-		c.Rule = fmt.Sprintf("genesis files = all lists of 1 and 2 entries over a %d-entry menu (address text in {a1,a2,upper-case a1,sc,bad checksum,empty%s} x balance x staked x delegation form {none, 1@d1, 1@empty, 1@malformed%s} x declared supply = sum-1/sum/sum+1) and all lists of 3 entries (first two from a %d-entry menu, third from a %d-entry menu), each with configured entire supply = sum of declared supplies -1/+0/+1; real NewAccountsParser + bech32(32) converter + ed25519 key generator; non-trivial = accepted file with >= 2 entries",
-			nF, map[bool]string{true: "", false: ",upper-case a2,upper-case sc,zero address,mixed-case a1"}[c.Quick()],
-			map[bool]string{true: "", false: ", 0@d1, object omitted; balance also 2^70, staked also -1"}[c.Quick()], nM, nT)
-		c.Bound = fmt.Sprintf("lists of <=2 entries over %d entries (%d files x 3 totals), lists of 3: %d x 3 totals", nF, n1+n2, n3)
+		third = buildEntries([]int{0, 1, 2, 3}, []string{"1", "0"}, []string{"0"}, []delegForm{{"0", 0}, {"1", 1}}, []int64{0})
+		nO, nF, nM, nT := len(one), len(full), len(mid), len(third)
+		n1, n2, n3 := nO, nF*nF, nM*nM*nT
+		extraA, extraV := "", ""
+		if !c.Quick() {
+			extraA = ", upper-case a2, upper-case sc, zero address, mixed-case a1"
+			extraV = "; delegation object omitted; 1-entry files also balance 2^70, staked -1, delegation 0@d1"
+		}
+		c.Rule = fmt.Sprintf("genesis files: all 1-entry files over a %d-entry menu, all 2-entry files over a %d-entry menu (address text in {a1, a2, upper-case a1, sc, bad checksum, empty%s} x balance {0,1,2} x staked {0,1} x delegation {none, 1@d1, 1@empty address, 1@malformed address} x declared supply = sum%s%s), all 3-entry files (first two entries from a %d-entry menu, third from a %d-entry menu); every file with configured entire supply = sum of declared supplies +0/+1%s (non-positive configured values other than the sum itself skipped); real NewAccountsParser + bech32(32) converter + ed25519 key generator; non-trivial = accepted file with >= 2 entries",
+			nO, nF, extraA, map[bool]string{true: "/sum+1 (1-entry files also sum-1)", false: "-1/sum/sum+1"}[c.Quick()], extraV, nM, nT, map[bool]string{true: " (1-entry files also -1)", false: "/-1"}[c.Quick()])
+		c.Bound = fmt.Sprintf("1-entry files %d, 2-entry files %d, 3-entry files %d, each x <=%d configured totals", n1, n2, n3, c.Pick(2, 3))
 		c.Assumptions = []string{
 			"one direction only, as stated: accepted => (1) supply == balance+staked+delegated per entry, (2) supplies sum to the configured entire supply, (3) no smart-contract address, (4) no two entries with the same decoded address; rejections and parser panics are counted, not judged",
 			"'same address in any textual form' = texts that the bech32 converter decodes to equal bytes (lower-case and upper-case spellings); the menu's text->bytes table is cross-checked against the real converter at start",
 			"the value of an omitted delegation object is taken as 0",
 		}
-		c.Set("menu_sizes", map[string]int{"full": nF, "mid": nM, "third": nT})
+		c.Set("menu_sizes", map[string]int{"one": nO, "full": nF, "mid": nM, "third": nT})
 
-		totals := func(es []entry) []string {
+		// configured entire supply: sum of the declared supplies, sum+1 and (thorough, and 1-entry files) sum-1
+		runAll := func(es []entry, rank int) {
 			s := new(big.Int)
 			for _, e := range es {
 				s.Add(s, bi(e.Sup))
 			}
-			return []string{new(big.Int).Sub(s, big.NewInt(1)).String(), s.String(), new(big.Int).Add(s, big.NewInt(1)).String()}
-		}
-		runAll := func(es []entry, rank int) {
-			for k, t := range totals(es) {
-				if bi(t).Sign() <= 0 && k != 1 {
-					// entire supply <= 0 is refused before the file is read; keep one such case per list (k==1 when sum<=0)
+			ts := []string{s.String(), new(big.Int).Add(s, big.NewInt(1)).String()}
+			if !c.Quick() || len(es) == 1 {
+				ts = append(ts, new(big.Int).Sub(s, big.NewInt(1)).String())
+			}
+			for k, t := range ts {
+				if bi(t).Sign() <= 0 && k != 0 {
+					// an entire supply <= 0 is refused before the file is read: one such case per file is enough
 					continue
 				}
 				ev.run(fileCase{Entries: es, Total: t}, rank*3+k)
@@ -319,7 +359,7 @@ func main() {
 			}
 			switch {
 			case i < n1:
-				runAll([]entry{full[i]}, i)
+				runAll([]entry{one[i]}, i)
 			case i < n1+n2:
 				k := i - n1
 				runAll([]entry{full[k/nF], full[k%nF]}, i)
